@@ -119,6 +119,16 @@ func (x *g) genMethod(sv *spec.Service, j int, used map[string]bool) {
 	case pk == 0 && x.o.Profile != "security":
 		// no payload
 		x.s.AddFeature("payload-none")
+	case pk == 1 && x.o.Profile != "security" && x.o.Profile != "grpc" && x.objectTypes() != nil && x.chance(1, 3):
+		// the whole payload is a collection of collections of a named object type
+		ts := x.objectTypes()
+		ul := &spec.Attr{Type: &spec.Type{Kind: spec.Ref, Ref: ts[x.r.Intn(len(ts))].Name}}
+		inner := &spec.Attr{Type: &spec.Type{Kind: spec.Array, Elem: ul}}
+		if x.chance(1, 2) {
+			inner = &spec.Attr{Type: &spec.Type{Kind: spec.Map, Key: &spec.Attr{Type: &spec.Type{Kind: spec.String}}, Elem: ul}}
+		}
+		m.Payload = &spec.Attr{Type: &spec.Type{Kind: spec.Array, Elem: inner}}
+		x.s.AddFeature("payload-array", "payload-collection-of-collections-of-usertype")
 	case pk == 1 && x.o.Profile != "security":
 		// primitive / array / map payload
 		switch x.r.Intn(3) {
@@ -200,6 +210,16 @@ func (x *g) genMethod(sv *spec.Service, j int, used map[string]bool) {
 		x.s.AddFeature("result-primitive", "result-text-candidate")
 	case rk == 0:
 		x.s.AddFeature("result-none")
+	case rk == 1 && x.o.Profile != "grpc" && x.objectTypes() != nil && x.chance(1, 3):
+		// the whole result is a collection of collections of a named object type
+		ts := x.objectTypes()
+		ul := &spec.Attr{Type: &spec.Type{Kind: spec.Ref, Ref: ts[x.r.Intn(len(ts))].Name}}
+		inner := &spec.Attr{Type: &spec.Type{Kind: spec.Array, Elem: ul}}
+		if x.chance(1, 2) {
+			inner = &spec.Attr{Type: &spec.Type{Kind: spec.Map, Key: &spec.Attr{Type: &spec.Type{Kind: spec.String}}, Elem: ul}}
+		}
+		m.Result = &spec.Attr{Type: &spec.Type{Kind: spec.Array, Elem: inner}}
+		x.s.AddFeature("result-array", "result-collection-of-collections-of-usertype")
 	case rk == 1:
 		switch x.r.Intn(3) {
 		case 0:
